@@ -410,6 +410,125 @@ def extract_input():
 HOOKS.append(extract_input)
 
 
+def block_at(s, i, what):
+    """brace block of `s` that starts at the first `{` at or after offset i: (start, end_exclusive)"""
+    i = s.find("{", i)
+    if i < 0:
+        raise ExtractError(f"no block for {what}")
+    depth, j = 0, i
+    while j < len(s):
+        if s[j] == "{":
+            depth += 1
+        elif s[j] == "}":
+            depth -= 1
+            if depth == 0:
+                return i, j + 1
+        j += 1
+    raise ExtractError(f"unbalanced block for {what}")
+
+
+POINT_IDS = {"enter": 0, "guard": 1, "spawn": 2, "spawn2": 3, "spawn3": 4}
+ROLE_OF_CALL = {"wait_io_sub": 0, "wait_io_pub": 1, "recv": 2, "on_tick": 3, "on_command": 4}
+
+
+def schedule_ops(fn):
+    """The scheduling function as a list of micro-operations in SOURCE ORDER:
+       [0, slot]                                   let <v> = self.shutdown.0.subscribe()
+       [1]                                         S::new(..) / <service>.clone()
+       [2]                                         if self.shutdown.1.is_empty() {
+       [3, slot, setup, teardown, arm, guarded, role]   self.spawn(async move { [setup] select!{loop{role}, <v>.recv()} [teardown] })
+       [4, id]                                     verification point
+    `slot` numbers the `let` it comes from; a spawn's slot is the binding of the receiver named in its select arm
+    that is in scope at the spawn (999 if its select has no shutdown arm)."""
+    r = "glonax-runtime/src/runtime/mod.rs"
+    b = body_of(r, r"pub\s+fn\s+" + fn + r"\b.*?\)\s*where.*?\{", fn)
+    b = re.sub(r"//[^\n]*", lambda m: " " * len(m.group(0)), b)
+    events = []  # (offset, op)
+    slot_of = []  # (offset, name, slot)
+    for k, m in enumerate(re.finditer(r"let\s+(?:mut\s+)?(\w+)\s*=\s*self\s*\.\s*shutdown\s*\.\s*0\s*\.\s*subscribe\s*\(\s*\)", b)):
+        slot_of.append((m.start(), m.group(1), k))
+        events.append((m.start(), [0, k]))
+    for m in re.finditer(r"\bS::new\s*\(|\bservice\d*\s*\.\s*clone\s*\(\s*\)", b):
+        events.append((m.start(), [1]))
+    guards = []
+    for m in re.finditer(r"if\s+self\s*\.\s*shutdown\s*\.\s*1\s*\.\s*is_empty\s*\(\s*\)\s*\{", b):
+        st, en = block_at(b, m.end() - 1, fn + " guard")
+        guards.append((st, en))
+        events.append((m.start(), [2]))
+    for m in re.finditer(r"self\s*\.\s*verif_point\s*\(\s*\"(\w+)\"\s*\)", b):
+        if m.group(1) not in POINT_IDS:
+            raise ExtractError(f"runtime/mod.rs {fn}: unknown verification point {m.group(1)}")
+        events.append((m.start(), [4, POINT_IDS[m.group(1)]]))
+    for m in re.finditer(r"self\s*\.\s*spawn\s*\(\s*async\s+move\s*\{", b):
+        st, en = block_at(b, m.end() - 1, fn + " spawn")
+        t = b[st:en]
+        sm = re.search(r"tokio::select!\s*\{", t)
+        if not sm:
+            raise ExtractError(f"runtime/mod.rs {fn}: spawned task without select!")
+        s0, s1 = block_at(t, sm.end() - 1, fn + " select")
+        before, sel, after = t[:sm.start()], t[s0:s1], t[s1:]
+        setup = 1 if re.search(r"\.\s*setup\s*\(\s*\)\s*\.\s*await", before) else 0
+        teardown = 1 if re.search(r"\.\s*teardown\s*\(\s*\)\s*\.\s*await", after) else 0
+        lm = re.search(r"\bloop\s*\{", sel)
+        if not lm:
+            raise ExtractError(f"runtime/mod.rs {fn}: select! without service loop")
+        l0, l1 = block_at(sel, lm.end() - 1, fn + " loop")
+        role = None
+        for name, code in ROLE_OF_CALL.items():
+            if re.search(r"\.\s*" + name + r"\s*\(", sel[l0:l1]):
+                role = code
+        if role is None:
+            raise ExtractError(f"runtime/mod.rs {fn}: service loop calls no known service method")
+        # the shutdown arm: `_ = <v>.recv() => {}` outside the loop block
+        rest = sel[:l0] + sel[l1:]
+        am = re.search(r"=\s*(\w+)\s*\.\s*recv\s*\(\s*\)\s*=>", rest)
+        slot, arm = 999, 0
+        if am:
+            cands = [(o, k) for (o, n, k) in slot_of if n == am.group(1) and o < m.start()]
+            if cands:
+                slot, arm = max(cands)[1], 1
+        guarded = 1 if any(g0 <= m.start() < g1 for g0, g1 in guards) else 0
+        events.append((m.start(), [3, slot, setup, teardown, arm, guarded, role]))
+    events.sort(key=lambda e: e[0])
+    if not any(op[0] == 3 for _, op in events):
+        raise ExtractError(f"runtime/mod.rs {fn}: no spawned task found")
+    return [op for _, op in events]
+
+
+def lean_ll(ops):
+    return "[" + ", ".join("[" + ", ".join(str(x) for x in op) + "]" for op in ops) + "]"
+
+
+def extract_tasks():
+    add("schedIoSubOps", lean_ll(schedule_ops("schedule_io_sub_service")), "runtime/mod.rs schedule_io_sub_service as micro-operations in source order (see tools/extract.py schedule_ops)", ty="List (List Nat)")
+    add("schedIoPubOps", lean_ll(schedule_ops("schedule_io_pub_service")), "runtime/mod.rs schedule_io_pub_service", ty="List (List Nat)")
+    add("schedNetOps", lean_ll(schedule_ops("schedule_net_service")), "runtime/mod.rs schedule_net_service", ty="List (List Nat)")
+    # glonax-server main.rs run(): order of the runtime calls
+    f = "glonax-server/src/main.rs"
+    b = body_of(f, r"async\s+fn\s+run\s*\(", "glonaxd run()")
+    b = re.sub(r"//[^\n]*", lambda m: " " * len(m.group(0)), b)
+    calls = []
+    loops = []
+    for m in re.finditer(r"for\s+\w+\s+in\s+&?config\s*\.\s*j1939\s*\{", b):
+        loops.append(block_at(b, m.end() - 1, "j1939 loop"))
+    for m in re.finditer(r"runtime\s*\.\s*(register_shutdown_signal|schedule_io_sub_service|schedule_io_pub_service|schedule_net_service|wait_for_shutdown|wait_for_tasks)\b", b):
+        code = {"register_shutdown_signal": 0, "schedule_io_sub_service": 1, "schedule_io_pub_service": 5,
+                "schedule_net_service": 2, "wait_for_shutdown": 3, "wait_for_tasks": 4}[m.group(1)]
+        in_loop = any(a <= m.start() < z for a, z in loops)
+        if code == 2 and not in_loop:
+            raise ExtractError("glonaxd run(): schedule_net_service outside the per-network loop")
+        if code != 2 and in_loop:
+            raise ExtractError("glonaxd run(): unexpected runtime call inside the per-network loop")
+        calls.append(code)
+    add("mainCalls", "[" + ", ".join(map(str, calls)) + "]", "glonax-server main.rs run(): 0 register_shutdown_signal, 1 schedule_io_sub_service, 5 schedule_io_pub_service, 2 schedule_net_service (once per configured network), 3 wait_for_shutdown, 4 wait_for_tasks — in source order", ty="List Nat")
+    u = "contrib/systemd/glonax.service"
+    m = one(u, r"^TimeoutStopSec\s*=\s*(\d+)\s*$", "TimeoutStopSec", flags=re.M)
+    add("supervisorStopTimeoutSec", int(m.group(1)), "contrib/systemd/glonax.service TimeoutStopSec")
+
+
+HOOKS.append(extract_tasks)
+
+
 def main():
     try:
         extract()
